@@ -462,6 +462,7 @@ def slice_points(G, at_l1):
 def execute(plan):
     setup()
     own_entropy(plan["run_seed"])
+    _MARGIN["relation"] = _MARGIN["z"] = 0.0
     pool = {k: (v.copy() if isinstance(v, np.ndarray) else v) for k, v in plan["pool"].items()}
     cmeta = plan["cmeta"]
     log = EventLog()
@@ -603,6 +604,8 @@ def execute(plan):
                     z = (v - ref) / se if se > 0 else (0.0 if abs(v - ref) <= 1e-9 * max(1, abs(ref))
                                                        else math.inf)
                     bump("width_value_checks")
+                    if math.isfinite(z):
+                        _MARGIN["z"] = max(_MARGIN["z"], abs(z))
                     if abs(z) > 7:
                         raise Violation(ID, "mean_width_wrong",
                                         f"mean width of a {meta['cls']} cloud in {meta['d']}-D is "
@@ -753,7 +756,11 @@ def execute(plan):
     cov = [(tuple(sorted((m["cls"], m["d"]) for m in cmeta.values())), tuple(sorted(cov_ops)),
             tuple(sorted(cov_twins)), tuple(sorted(cov_faults)))]
     return {"violation": violation, "digest": log.digest(), "steps": steps, "counters": counters,
-            "cov": cov, "nontrivial": nontrivial}
+            "cov": cov, "nontrivial": nontrivial,
+            "margin_relation": _MARGIN["relation"], "margin_z": _MARGIN["z"]}
+
+
+_MARGIN = {"relation": 0.0, "z": 0.0}
 
 
 def _exact(a, b, ulps, msg, f, twin):
@@ -763,6 +770,8 @@ def _exact(a, b, ulps, msg, f, twin):
     row order inside qhull, BLAS instead of a loop) - measured: 8.9e-13 relative on the volume
     of a skewed 1:40:0.03 cloud under rotation."""
     tol = ulps * 4e-16 * max(abs(a), abs(b), 1e-300) + 1e-13 * max(abs(a), abs(b))
+    if tol > 0:
+        _MARGIN["relation"] = max(_MARGIN["relation"], abs(a - b) / tol)
     if abs(a - b) > tol:
         raise Violation(ID, "exact_relation_broken", f"{msg}: {a!r} vs {b!r}", f=f, twin=twin)
 
@@ -877,6 +886,9 @@ def sample_repr(plan):
 
 def extra_evidence(results):
     return {"z_threshold": 7, "harness_mc_directions": 20000,
+            "worst_abs_z_of_a_mean_width_value": float(f"{max([r.get('margin_z', 0.0) for r in results] or [0.0]):.3g}"),
+            "worst_same_seed_relation_deviation_in_units_of_its_budget": float(
+                f"{max([r.get('margin_relation', 0.0) for r in results] or [0.0]):.3g}"),
             "input_quantified_oracles_not_simulation": ["volume", "volume-based gamut",
                                                         "Jensen-Shannon divergence"]}
 
